@@ -1,7 +1,25 @@
 #!/bin/bash
 # development aid: validate one recorded trace against the named properties  (tools/val.sh <trace> C04 C09 ...)
+# prints one line per (property, clause) with its count and the first line number, then TRACE-OK / errors
 T=$(readlink -f $1); shift
 cd /verif/spec
 for p in "$@"; do export P_$p=1; done
-TRACE=$T ../tools/tlc.sh 1 6g /verif/work/meta/val_dev_$$ -config Trace.cfg Trace.tla 2>&1 | grep -E '^"FAIL|TRACE-|Error|rror:' | sort | uniq -c | sort -rn | head -${HEADN:-20}
-rm -rf /verif/work/meta/val_dev_$$
+TRACE=$T ../tools/tlc.sh 1 6g /verif/work/meta/val_dev_$$ -config Trace.cfg Trace.tla 2>&1 | grep -E '^"FAIL|TRACE-|Error|rror:' > /verif/work/meta/val_dev_$$.out
+python3 - /verif/work/meta/val_dev_$$.out <<'PY'
+import sys, json, collections
+c = collections.OrderedDict()
+for l in open(sys.argv[1]):
+    l = l.strip()
+    try:
+        s = json.loads(l)
+    except Exception:
+        print(l[:300]); continue
+    if s.startswith("FAIL "):
+        j = json.loads(s[5:]); k = (j["property"], j["clause"])
+        c.setdefault(k, [0, j["line"], json.dumps(j["info"])[:int(__import__("os").environ.get("INFOW", "160"))]]); c[k][0] += 1
+    else:
+        print(s)
+for k, v in c.items():
+    print(f"{v[0]:6d} {k[0]} {k[1]} first_line={v[1]} {v[2]}")
+PY
+rm -rf /verif/work/meta/val_dev_$$ /verif/work/meta/val_dev_$$.out
